@@ -206,7 +206,7 @@ func ruleC17Sanitise(c *Ctx) {
 			return ok && n.Obj().Name() == "Header"
 		}) {
 			_ = pv
-			initializing := paramVar(f, "initializing")
+			initializing := roleVar(f, "initializing")
 			isStore := func(n ast.Node) bool {
 				as, ok := n.(*ast.AssignStmt)
 				if !ok || len(as.Lhs) != 1 || len(as.Rhs) != 1 {
